@@ -247,13 +247,30 @@ func byDefinition(fn string, raw bool, args []string) string {
 			}
 		}
 		return "by-definition:simple-loop"
+	case "common-lisp:do", "common-lisp:do*":
+		// quoted mode: (do '(a) 'x) reads as (do (quote (a)) (quote x)): the
+		// variables quote and a, and the end test is the variable quote, which
+		// is nil for ever; every quoted call that gets past the binding list
+		// is such a loop. Raw: (do (a) (a)) tests the variable a, nil for ever.
+		if !raw && 2 <= len(args) {
+			return "by-definition:do-end-test-nil"
+		}
+		// Raw: the end test is a variable the binding list itself binds to
+		// nil: (do (a) (a)), (do (values) (values 1 2)), (do* (lambda (x) x) (lambda (x) x)).
+		if raw && 2 <= len(args) {
+			bound := map[string]string{"list1": "a", "values0": "values", "lambda-expr": "lambda", "alist": "a"}
+			head := map[string]string{"list1": "a", "values0": "values", "values2": "values", "lambda-expr": "lambda"}
+			if b, ok := bound[args[0]]; ok && head[args[1]] == b {
+				return "by-definition:do-end-test-nil"
+			}
+		}
 	case "gi:range":
 		// documented: over a channel the iteration ends when the channel is closed
 		if 2 <= len(args) && args[1] == "channel" {
 			return "by-definition:range-over-open-channel"
 		}
 	case "common-lisp:dotimes":
-		if !raw && 0 < len(args) && args[0] == "big62" {
+		if !raw && 0 < len(args) && (args[0] == "big62" || args[0] == "big40") {
 			return "by-definition:dotimes-2^62"
 		}
 	}
